@@ -348,21 +348,26 @@ impl Scenario for Roles {
 
 pub struct Wire {
     pub n: usize,
+    /// The client owns one of the two pieces only: a peer that loses interest stays connected (a
+    /// client that owns everything ends such a connection).
+    pub leeching: bool,
 }
 
 #[derive(Default)]
 pub struct WireMon {
     pub bitfield_sent: Vec<bool>,
+    /// What each peer last declared on the wire.
+    pub declared: Vec<bool>,
     pub time_ms: u64,
 }
 
 impl Scenario for Wire {
     type Mon = WireMon;
     fn name(&self) -> String {
-        format!("wire-n{}", self.n)
+        format!("wire-n{}{}", self.n, if self.leeching { "-leeching" } else { "" })
     }
     fn cfg(&self) -> WorldCfg {
-        WorldCfg { torrent: Torrent::new("t", 5, &[("f", 10)], true), have: vec![0, 1], peers: (0..self.n).map(|k| peer_cfg(k, k % 2 == 0)).collect(), gated: true, stale: vec![] }
+        WorldCfg { torrent: Torrent::new("t", 5, &[("f", 10)], true), have: if self.leeching { vec![0] } else { vec![0, 1] }, peers: (0..self.n).map(|k| peer_cfg(k, k % 2 == 0)).collect(), gated: true, stale: vec![] }
     }
     fn explore_choices(&self) -> bool {
         true
@@ -377,6 +382,7 @@ impl Scenario for Wire {
         w.step(&Ev::AdvanceTo(20_500), &[]);
         mon.time_ms = 20_500;
         mon.bitfield_sent = vec![false; self.n];
+        mon.declared = vec![false; self.n];
     }
     fn enabled(&self, w: &World, mon: &WireMon, _depth: usize) -> Vec<String> {
         let snap = w.snap();
@@ -388,8 +394,10 @@ impl Scenario for Wire {
             if !mon.bitfield_sent[k] {
                 out.push(format!("B{}", k));
             }
-            if let Some(p) = snap.peers.iter().find(|p| p.addr == w.peers[k].cfg.addr) {
-                out.push(if p.interested { format!("N{}", k) } else { format!("I{}", k) });
+            if snap.peers.iter().any(|p| p.addr == w.peers[k].cfg.addr) {
+                out.push(if mon.declared[k] { format!("N{}", k) } else { format!("I{}", k) });
+                // a change of mind within one segment: both frames reach the task in one read
+                out.push(if mon.declared[k] { format!("Y{}", k) } else { format!("X{}", k) });
             }
             if !w.peers[k].pending.is_empty() {
                 out.push(format!("L{}", k));
@@ -404,9 +412,13 @@ impl Scenario for Wire {
         }
         let k: usize = sym[1..].parse().unwrap();
         vec![match &sym[..1] {
-            "B" => Ev::Feed(k, refwire::encode(&Msg::Bitfield(vec![0x00]))),
+            // (leeching: the peer owns the piece the client lacks, so the connection is worth keeping
+            // whatever the peer's interest)
+            "B" => Ev::Feed(k, refwire::encode(&Msg::Bitfield(vec![if self.leeching { 0x40 } else { 0x00 }]))),
             "I" => Ev::Feed(k, refwire::encode(&Msg::Interested)),
             "N" => Ev::Feed(k, refwire::encode(&Msg::NotInterested)),
+            "X" => Ev::Feed(k, [refwire::encode(&Msg::Interested), refwire::encode(&Msg::NotInterested)].concat()),
+            "Y" => Ev::Feed(k, [refwire::encode(&Msg::NotInterested), refwire::encode(&Msg::Interested)].concat()),
             "L" => Ev::Release(k),
             _ => panic!("bad symbol"),
         }]
@@ -422,6 +434,13 @@ impl Scenario for Wire {
             if let Some(k) = sym.strip_prefix('B') {
                 mon.bitfield_sent[k.parse::<usize>().unwrap()] = true;
             }
+            if let Some(k) = sym.strip_prefix('I') {
+                mon.declared[k.parse::<usize>().unwrap()] = true;
+            }
+            if let Some(k) = sym.strip_prefix('N') {
+                mon.declared[k.parse::<usize>().unwrap()] = false;
+            }
+            // X = Interested + NotInterested, Y = NotInterested + Interested: the last frame counts
         }
         let snap = w.snap();
         if let Some(v) = limits(&snap.peers) {
@@ -431,6 +450,12 @@ impl Scenario for Wire {
             let side = &w.peers[k];
             if side.ended.get() {
                 continue;
+            }
+            // "a peer that declared interest": the manager's record must be what the peer last said
+            if let Some(p) = snap.peers.iter().find(|p| p.addr == side.cfg.addr) {
+                if p.interested != mon.declared[k] {
+                    return Some(("manager-interest-differs-from-what-the-peer-declared", format!("peer {} last declared interested={} on the wire (after {:?}), the manager records interested={}: rotations hand out and withdraw slots by that record", k, mon.declared[k], last, p.interested)));
+                }
             }
             let wire_choked = side.msgs.iter().fold(true, |c, m| match m {
                 Msg::Choke => true,
@@ -452,7 +477,7 @@ impl Scenario for Wire {
     }
     fn key(&self, w: &World, mon: &WireMon) -> String {
         let wires: Vec<bool> = (0..self.n).map(|k| w.peers[k].msgs.iter().fold(true, |c, m| match m { Msg::Choke => true, Msg::Unchoke => false, _ => c })).collect();
-        format!("{} b={:?} wires={:?}", w.default_key(), mon.bitfield_sent, wires)
+        format!("{} b={:?} wires={:?} decl={:?}", w.default_key(), mon.bitfield_sent, wires, mon.declared)
     }
 }
 
@@ -494,16 +519,16 @@ pub fn run(ctx: &Ctx) -> Outcome {
         per.push(json!({"scenario": r.name(), "depth": depth, "states": st.states, "transitions": st.transitions, "depth_completed": st.depth_completed}));
         total.merge(&st);
     }
-    let w = Wire { n: 3 };
-    let wd = ctx.tier.pick(7, 9);
-    let st = explore::bfs(ctx, &w, wd, ctx.tier.pick(40, 15));
-    per.push(json!({"scenario": w.name(), "depth": wd, "states": st.states, "transitions": st.transitions, "depth_completed": st.depth_completed}));
-    total.merge(&st);
+    for (w, wd) in [(Wire { n: 3, leeching: false }, ctx.tier.pick(7, 9)), (Wire { n: 3, leeching: true }, ctx.tier.pick(6, 8))] {
+        let st = explore::bfs(ctx, &w, wd, ctx.tier.pick(40, 15));
+        per.push(json!({"scenario": w.name(), "depth": wd, "states": st.states, "transitions": st.transitions, "depth_completed": st.depth_completed}));
+        total.merge(&st);
+    }
 
     let mut o = Outcome::new("model_checking");
     explore::stats_outcome(&total, &mut o);
     o.set("scenarios", Value::Array(per));
-    o.set("rule", json!("E-MGR: BFS over commands handed to the real Session::handle_peer_cmd / timeout_change_conn_state for N manager-only peers: B<k> bitfield, I<k>/N<k> interest, S<k>:<rate> statistics (both rates set to the value), K<k> disconnect, R rotation (the optimistic choice is an enumerated choice point); symmetric scenarios offer events for one representative per class of identical peers and sort peers in the state key (validated by the n=3 full/sym pair exploring the same depth). Roles: 12 interested peers whose two reported rates order them in opposite ways (received-from rate 1200..100, sent-to rate 100..1200), on a 2-piece torrent whose pieces are missing / owned / reserved for a downloading connection in 7 combinations; events R and interest changes of three peers; the ranking must follow the sent-to rate unless the client owns every piece. E-SYS: 3 real connection tasks with gated broadcasts: B/I/N frames, R rotation, L<k> release of one held-back broadcast."));
+    o.set("rule", json!("E-MGR: BFS over commands handed to the real Session::handle_peer_cmd / timeout_change_conn_state for N manager-only peers: B<k> bitfield, I<k>/N<k> interest, S<k>:<rate> statistics (both rates set to the value), K<k> disconnect, R rotation (the optimistic choice is an enumerated choice point); symmetric scenarios offer events for one representative per class of identical peers and sort peers in the state key (validated by the n=3 full/sym pair exploring the same depth). Roles: 12 interested peers whose two reported rates order them in opposite ways (received-from rate 1200..100, sent-to rate 100..1200), on a 2-piece torrent whose pieces are missing / owned / reserved for a downloading connection in 7 combinations; events R and interest changes of three peers; the ranking must follow the sent-to rate unless the client owns every piece. E-SYS: 3 real connection tasks with gated broadcasts, the client owning every piece (wire-n3) or one of two (wire-n3-leeching: a peer that loses interest stays connected): B/I/N frames, X<k>/Y<k> = a change of mind within one segment (Interested+NotInterested resp. NotInterested+Interested in one read), R rotation, L<k> release of one held-back broadcast; besides the wire agreement on choke state, the manager's record of each peer's interest must equal what the peer last declared on the wire."));
     o.assume("except in the roles-* scenarios both reported rates are set to the same value; there, the rate the pinned code ranks by in each role (data received from the peer when the client owns every piece, data sent to the peer otherwise) is taken as the definition of 'measured rate', and what is judged is that the role follows ownership, not reservations; ties in rate are ordered by address under the verif feature (peer names are symmetric and every assignment of roles to names is explored)");
     o
 }
@@ -512,7 +537,7 @@ pub fn replay(_ctx: &Ctx, r: &Value) -> i32 {
     let name = r["scenario"].as_str().unwrap();
     let hist = explore::hist_from_json(&r["history"]);
     if name.starts_with("wire-") {
-        return explore::replay_verbose(&Wire { n: 3 }, &hist, "C14");
+        return explore::replay_verbose(&Wire { n: 3, leeching: name.contains("leeching") }, &hist, "C14");
     }
     for statuses in ["MM", "HM", "HR", "RH", "RR", "RM", "HH"] {
         if name == format!("roles-{}", statuses) {
